@@ -66,6 +66,10 @@ def split_url(url: str) -> SplitURLType:
             raise ValueError("Invalid IPv6 URL")
         if has_left_bracket:
             bracketed_host = netloc.partition("[")[2].partition("]")[0]
+            if "[" in bracketed_host:
+                # a bracket cannot occur inside an IP-literal; the host could
+                # not be bracketed again and would split differently later
+                raise ValueError("Invalid IPv6 URL")
             # Valid bracketed hosts are defined in
             # https://www.rfc-editor.org/rfc/rfc3986#page-49
             # https://url.spec.whatwg.org/
